@@ -735,6 +735,18 @@ class LogOperationRecorder(BaseOperationRecorder):
         self._http_response_headers = headers
         self._http_response_conn_id = conn_id
 
+    @staticmethod
+    def _payload_to_unicode(payload):
+        """
+        Return the response payload as a unicode string for logging. The
+        payload comes from the server and may be truncated at any byte, so it
+        is not necessarily valid UTF-8; invalid sequences are replaced instead
+        of raising UnicodeDecodeError out of the operation.
+        """
+        if isinstance(payload, bytes):
+            return payload.decode("utf-8", errors="replace")
+        return payload
+
     def stage_http_response2(self, payload):
         """Log complete http response, including response1 and payload"""
 
@@ -754,10 +766,10 @@ class LogOperationRecorder(BaseOperationRecorder):
             if self.http_detail_level == 'summary':
                 upayload = ""
             elif self.http_maxlen and (len(payload) > self.http_maxlen):
-                upayload = (_ensure_unicode(payload[:self.http_maxlen]) +
-                            '...')
+                upayload = (self._payload_to_unicode(
+                    payload[:self.http_maxlen]) + '...')
             else:
-                upayload = _ensure_unicode(payload)
+                upayload = self._payload_to_unicode(payload)
             upayload = repr(upayload)
             if upayload.startswith("u'"):
                 upayload = upayload[1:]
